@@ -259,7 +259,7 @@ class Command():
         numparams = []
         words = []
         for x in spline[1:]:  # all values after SHELX card
-            if str.isdigit(x[0]) or x[0] in '+-':
+            if str.isdigit(x[0]) or x[0] in '+-' or (x[0] == '.' and x[1:2].isdigit()):
                 if intnums:
                     numparams.append(int(x))
                 else:
